@@ -39,7 +39,7 @@ from . import lib
 
 FAMILY = "contention"
 TYPES = ["cni", "cri", "cfi", "clat"]
-TIMEOUT = 120          # seconds per process; a case takes 0.05-0.6 s
+TIMEOUT = 60           # seconds per process; a case takes 0.05-2.5 s (load average 33)
 ROUNDS_REPLAY = 8
 SHARDS = {1: 4, 2: 8}  # pool size that first evaluates shards_count() -> DashMap shards
 
@@ -139,6 +139,20 @@ def gen_cases(tier, seed):
 # ------------------------------------------------------------------ running
 
 def run_case(binary, c):
+    """one process; a time-out or a SIGKILL (the kernel's OOM killer; never raised by the code under test) may be the loaded machine's
+    doing, not the code's: the case is run once more and only the second outcome counts (a hang has to reproduce); crashes by any
+    other signal count at once (a data race does not reproduce on demand)"""
+    res = run_case_once(binary, c)
+    if res["timeout"] or res["rc"] == -signal.SIGKILL:
+        first = "time-out" if res["timeout"] else "SIGKILL"
+        res = run_case_once(binary, c)
+        res["retried_after"] = first
+        if res["rc"] == -signal.SIGKILL:
+            raise lib.Infra("contention driver killed by SIGKILL twice (out of memory?): %s" % case_line(c))
+    return res
+
+
+def run_case_once(binary, c):
     t0 = time.time()
     try:
         p = subprocess.run([binary] + argv(c), stdout=subprocess.PIPE, stderr=subprocess.PIPE, text=True, timeout=TIMEOUT)
@@ -202,7 +216,7 @@ def diff_multiset(got, exp, label):
 def check(c, res):
     """reason (str) why the run violates the specification, or None"""
     if res["timeout"]:
-        return "the process did not finish within %d s (hang)" % TIMEOUT
+        return "the process did not finish within %d s, twice (hang)" % TIMEOUT
     rc = res["rc"]
     if rc != 0:
         if rc < 0:
@@ -359,6 +373,8 @@ def run(binary, tier, seed):
     for c in cases:
         res = run_case(binary, c)
         walls.append(res["wall"])
+        if res.get("retried_after"):
+            dist["retried after " + res["retried_after"]] += 1
         dist["%s/%s/%s" % (c["type"], c["mode"], c["shape"])] += 1
         inserts += c["T"] * c["m"] + c["pre"]
         reason = check(c, res)
